@@ -701,6 +701,17 @@ class PendingAssign(PendingNode[Assign | AnnAssign]):
         else:
             assign_targets = self.node.targets
 
+        if len(assign_targets) > 1 or (
+            isinstance(assign_targets[0], (Attribute, Subscript))
+            and not isinstance(assign_value, Constant)
+        ):
+            # save the assign value to a tmp var
+            # to make sure the value expr only runs once
+            # and it runs before the exprs in the targets.
+            tmp_value_name = Name(id=ol_name(OL_ASSIGN_TMP))
+            return_list.append(NamedExpr(target=tmp_value_name, value=assign_value))
+            assign_value = tmp_value_name
+
         for target in assign_targets:
             return_list.extend(self.assign_auto(target, assign_value))
 
